@@ -17,7 +17,7 @@ use std::sync::{Arc, Mutex};
 pub const DEF: PropDef = PropDef {
     id: "C10",
     level: "model_checking",
-    rule: "single-thread: every in-order stream of <=4 items (thorough <=5), each item a (triple from a 3-triple alphabet, gap in {0,1,2} to the previous timestamp) pair, fed to a real single-window RSPEngine built with RSPBuilder for {RSTREAM, ISTREAM, DSTREAM} x (width,slide) in {(3,1),(2,2),(4,2),(3,2)} x 6 query/rule configurations (one pattern, two-pattern join, pattern over a derived predicate; no rules, subclass rule, two-step chain, inverse-property rule; alphabets contain a triple that is also derivable, so base and derived facts coincide and re-arrive after eviction); oracle per firing: window content from a probe CSPARQLWindow with identical parameters, rows = BGP answers over content + naive rule closure of the content, passed through the R2S reference (all / new / vanished w.r.t. the previous firing); the emitted row sequence must be the concatenation of permutations of the expected per-firing multisets. Multi-thread: the same cases for streams of <=3 items (thorough <=4) in OperationMode::MultiThread under the baton scheduler (hook H1): every schedule with <= 2 preemptions (thorough: streams of <=4 items, <= 3 preemptions; stateless DFS) must emit exactly the single-thread sequence, without deadlock. plus a long-stream family (12 items, ~11 firings, producer far ahead of the worker) under every schedule with <= 1 (thorough 2) preemptions. states = engine runs (one per stream prefix-closed history), transitions = stream items fed, traces = complete executions (streams x schedules). Non-trivial = case whose expected output is non-empty and has >= 2 firings; distinct by (configuration, stream).",
+    rule: "single-thread: every in-order stream of <=4 items (thorough <=5), each item a (triple from a 3-triple alphabet, gap in {0,1,2} to the previous timestamp) pair, fed to a real single-window RSPEngine built with RSPBuilder for {RSTREAM, ISTREAM, DSTREAM} x (width,slide) in {(3,1),(2,2),(4,2),(3,2)} x 6 query/rule configurations (one pattern, two-pattern join, pattern over a derived predicate; no rules, subclass rule, two-step chain, inverse-property rule; alphabets contain a triple that is also derivable, so base and derived facts coincide and re-arrive after eviction); oracle per firing: window content from a probe CSPARQLWindow with identical parameters, rows = BGP answers over content + naive rule closure of the content, passed through the R2S reference (all / new / vanished w.r.t. the previous firing); the emitted row sequence must be the concatenation of permutations of the expected per-firing multisets. Multi-thread: the same cases for streams of <=3 items (thorough <=4) in OperationMode::MultiThread under the baton scheduler (hook H1): every schedule with <= 2 preemptions (thorough: streams of <=4 items; stateless DFS) must emit exactly the single-thread sequence, without deadlock. plus a long-stream family (12 items, ~11 firings, producer far ahead of the worker) under every schedule with <= 1 (thorough 2) preemptions. states = engine runs (one per stream prefix-closed history), transitions = stream items fed, traces = complete executions (streams x schedules). Non-trivial = case whose expected output is non-empty and has >= 2 firings; distinct by (configuration, stream).",
     assumptions: &[
         "the probe window is the real CSPARQLWindow (its own correctness is C09's subject)",
         "stop()'s flush is excluded (it reports all open windows by design; the repository's tests avoid it too): engines are dropped",
@@ -25,7 +25,7 @@ pub const DEF: PropDef = PropDef {
     ],
     run,
     replay,
-    cap_s: (55, 900),
+    cap_s: (55, 1800),
     shards: 0,
 };
 
@@ -462,7 +462,7 @@ fn run(ctx: &Ctx) -> ShardOut {
                             // configuration) product (every pair of the three still occurs)
                             let heavy_ok = ctx.thorough() || len < 3 || (oi + wi + ci) % 2 == 0;
                             if len <= mt_len && heavy_ok && sched::available() {
-                                let bound = if ctx.thorough() { 3 } else { 2 };
+                                let bound = 2;
                                 check_multi(&mut out, ctx, op, *w, cfg, &stream, &single, bound);
                             }
                         }
